@@ -101,4 +101,25 @@ def stored (T : MemberType M) (sep : Str) (prune : Bool) : Machine M (List M × 
     value := fun s => s.2
     members := fun s => s.1 }
 
+/-- (n3) a JoinedString that CACHES: it stores the value computed at the last whole-element `set()` and
+    invalidates it on exactly the operations of its own API that change a member text or the member list
+    (member `set()`, `append`, `del`); a change of a member BEHIND the element's back (`poke`) does not go
+    through the element and cannot invalidate.  Reads return the cache when there is one. -/
+def cached (T : MemberType M) (sep : Str) (prune : Bool) : Machine M (List M × Option Str) :=
+  { step := fun s op => match step T prune s.1 op with
+      | .error e => .error e
+      | .ok (ms, r) => match op with
+                       | .setPieces _ => .ok ((ms, some (value T sep ms)), r)
+                       | .setNotIterable => .ok ((ms, some (value T sep ms)), r)
+                       | .poke .. => .ok ((ms, s.2), r)              -- nobody tells the element
+                       | _ => .ok ((ms, none), r)                    -- member set / append / del: invalidate
+    value := fun s => s.2.getD (value T sep s.1)
+    members := fun s => s.1 }
+
+/-- the history contains no change behind the element's back -/
+def NoPoke : List (Op M) → Bool
+  | [] => true
+  | .poke .. :: _ => false
+  | _ :: rest => NoPoke rest
+
 end Flatland.C18.Joined
